@@ -126,6 +126,11 @@ class ExprGen:
             elif self.branches and d < self.max_depth:
                 edge = r.random() < 0.3
                 body = self.seq(d + 1, True if not edge else prev_b, True, edge, True, 3)
+                if start and at_start_of_sub and not left_b and self.trees and r.random() < 0.12:
+                    # a repetition rooted by a tree wildcard or a separator at the very start of the (sub-)expression
+                    body = [Item(r.choice(["/**/", "/", "/**/"]), sb=True, eb=True)] + [b for b in body if not b.sb][:2] or [Item("a")]
+                    if len(body) == 1:
+                        body.append(Item(r.choice(self.lits)))
                 if len(body) == 1 and body[0].text in ("/", "*", "$"):
                     body = [Item(r.choice(self.lits))] + body
                 if edge and body and body[0].sb and body[-1].eb and len(body) > 1:
